@@ -316,10 +316,19 @@ def r5_shared_element_checks(ctx):
     for o in c15.r6_delegation_always_runs(ctx):
         yield o
 
+def r6_shared_walker(ctx):
+    """a missing mandatory segment/loop, an exceeded repeat limit and an unexpected segment are found by the walker
+    atoms of C02.R5: the same wiring that must not accuse a conformant document must not excuse a faulty one"""
+    from . import c02
+    for o in c02.r5_walker_wiring(ctx):
+        yield o
+
+
 RULES = [
     Rule('C03.R1', 'element reports dominated by a fresh add_ele in the same activation', r1_element_attachment, floor=15),
     Rule('C03.R2', 'walker segment reports dominated by add_seg in the same function', r2_segment_attachment, floor=3),
     Rule('C03.R3', 'position arguments of add_seg / walk are not crossed; position fields stored by name', r3_positions, floor=7),
     Rule('C03.R4', 'message/code agreement with the X12 code meanings', r4_codes, floor=15),
     Rule('C03.R5', 'shared with C15.R3/R6: length atoms measure the right string with the right code; delegated checks always run', r5_shared_element_checks, floor=19),
+    Rule('C03.R6', 'shared with C02.R5: walker counting/ordering atoms (pending mandatory nodes are reported, limits, positions)', r6_shared_walker, floor=10),
 ]
